@@ -68,6 +68,15 @@ NotesGoverning == LET ptrs == Flat([s \in 1..Len(stages) |-> SelectSeq([i \in 1.
                                          LAMBDA q : s > 1 /\ stages[q[1]][q[2]].cell.k = "note")])
                   IN [j \in 1..Len(ptrs) |-> LET n == At(ptrs[j]) IN <<SigTextAt(n.sig.clef), SigTextAt(n.sig.key), SigTextAt(n.sig.time)>>]
 
+(* --------------------- the graph export (GraphvizExporter), up to renaming of the nodes --------------------- *)
+\* one rank per stage holding its nodes in order; one edge parent -> child per node other than the root; every node labelled
+\* with its stage, category, header node and last spine operator
+AllNodePtrs == UNION {{<<s, i>> : i \in 1..Len(stages[s])} : s \in 1..Len(stages)}
+GraphRanks == [s \in 1..Len(stages) |-> Len(stages[s])]
+GraphEdges == {<<At(q).par, q>> : q \in AllNodePtrs \ {<<1, 1>>}}
+GraphNodeLabel(q) == <<q[1] - 1, (IF q = <<1, 1>> THEN "Non defined category" ELSE CatAt(q)), At(q).hdr, At(q).lastop>>
+GraphLabels == [s \in 1..Len(stages) |-> [i \in 1..Len(stages[s]) |-> GraphNodeLabel(<<s, i>>)]]
+
 (* --------------------- page bounding boxes (Document.page_bounding_boxes) --------------------- *)
 \* A *xywh-<page>:x,y,w,h interpretation (in a spine of any type) contributes a box to its page.  The index keeps, per page
 \* in order of first appearance, the union of its boxes and the measure span: from = measures open when the page first
